@@ -89,6 +89,11 @@ FAULTS_BY_CALL = {
     "rename": ["EXDEV", "EBUSY", "EACCES", "EROFS", "ENOSPC", "ENOENT"],
     "fsync": ["EIO", "ENOSPC"],
 }
+# calls that act on a descriptor: like read(2)/write(2)/close(2)/fsync(2)/getcwd(2) in the real
+# interpreter, their OSError carries NO filename (error.filename is None). (Until round 9 the
+# injected errors named the path, so code that formats `error.filename` in a handler never met
+# the None it meets on a real disk: seeded change r9b was missed that way.)
+NO_FILENAME = ("read", "write", "close_w", "fsync", "getcwd")
 CRASHABLE = ("open_r", "read", "stat", "getcwd", "open_w", "write", "close_w", "rename", "fsync")
 # persistent conditions apply to a class of calls: reading side / writing side
 _SEAM_CLASS = {"open_r": "r", "read": "r", "stat": "r", "getcwd": "r", "open_w": "w", "write": "w", "close_w": "w", "rename": "w", "fsync": "w"}
@@ -465,7 +470,7 @@ class SimFS:
                     if kind == "write":
                         return {"kind": e, "frac": 0.0, "sticky_echo": True}
                     self.fired.append({"call": n, "seam": kind, "kind": e, "sticky_echo": True})
-                    raise oserr(getattr(errno, e), path if isinstance(path, str) else None)
+                    raise oserr(getattr(errno, e), path if isinstance(path, str) and kind not in NO_FILENAME else None)
             return None
         fk = f["kind"]
         if fk == "crash":
@@ -488,7 +493,7 @@ class SimFS:
         if kind == "write":
             return f
         self.fired.append({"call": n, "seam": kind, "kind": fk})
-        raise oserr(getattr(errno, fk), path if isinstance(path, str) else None)
+        raise oserr(getattr(errno, fk), path if isinstance(path, str) and kind not in NO_FILENAME else None)
 
     def _do_crash(self, power: bool, tear: int) -> None:
         """Process kill: userspace buffers vanish. Power loss: page cache may be lost/torn."""
@@ -1246,10 +1251,10 @@ class SimRaw(_io.RawIOBase):
                 # above knows how much went out and does not write the prefix twice)
                 self._pending_errno = f["kind"]
                 return keep
-            raise oserr(getattr(errno, f["kind"]), self.name)
+            raise oserr(getattr(errno, f["kind"]))
         if self._pending_errno is not None:
             e, self._pending_errno = self._pending_errno, None
-            raise oserr(getattr(errno, e), self.name)
+            raise oserr(getattr(errno, e))
         self._store(data)
         return len(data)
 
